@@ -839,7 +839,7 @@ struct E2
         if (a.clocked)
             body += "clocked 1\n";
         if (a.alloc_points)
-            body += "allocpoints 1\n";
+            body += "allocpoints " + std::to_string(a.alloc_points) + "\n";
         if (a.longrange)
             body += "longrange 1\n";
         body += "schedule";
@@ -1381,8 +1381,8 @@ struct E2
             }
             else if (!strncmp(line, "clocked 1", 9))
                 a.clocked = 1;
-            else if (!strncmp(line, "allocpoints 1", 13))
-                a.alloc_points = 1;
+            else if (!strncmp(line, "allocpoints ", 12))
+                a.alloc_points = atoi(line + 12);
             else if (!strncmp(line, "longrange 1", 11))
                 a.longrange = 1;
             else if (!strncmp(line, "props C", 7))
